@@ -161,13 +161,14 @@ func cmdCheck(prop, tier string) int {
 		solverTime += o.Res.Time
 	}
 	for _, sm := range sums {
-		if sm.Kind == "cover" {
+		if sm.Kind == "cover" && !strings.Contains(sm.Name, "/cover-assume:") {
 			nCover++
 			if !sm.OK {
 				machinery = append(machinery, fmt.Sprintf("vacuity guard failed: %s is %s (contradictory precondition or assumptions?)", sm.Name, sm.Verdict))
 			}
 			continue
 		}
+		// an unattainable scenario witness is a violated reachability obligation, not a machinery problem
 		nObl++
 		if sm.OK {
 			nDis++
